@@ -39,7 +39,7 @@ RULE = ("generated variants of an 8-class model with callbacks at every placemen
         "dictionary fields and tuples; expected invocation log, metadata chain and emitted call sites known by construction; "
         "non-trivial = at least one callback site; distinct by ast.dump")
 
-PLACEMENTS = ["trackcls", "trackpt", "jetcls", "jetpt", "jettrks", "evcls", "evjets", "fproc", "pcb", "subx",
+PLACEMENTS = ["collcls", "trackcls", "trackpt", "jetcls", "jetpt", "jettrks", "evcls", "evjets", "fproc", "pcb", "subx",
               "partcls", "partpt", "lepcls", "lepeta", "lepiso", "mucls"]
 
 
@@ -58,11 +58,15 @@ def gen_desc(r):
     g = lambda p: p if on[p] else None  # noqa
     ret = lambda t: r.choice([t, t, None, "Any"])  # noqa   a scalar method may lack its return annotation: callbacks fire all the same
     desc = {
+        "typevars": ["T"],
         "classes": [
             {"name": "Track", "cb": g("trackcls"),
              "methods": [{"name": "pt", "ret": ret("float"), "cb": g("trackpt")}, {"name": "eta", "ret": ret("float")}],
              "props": [{"name": "getAttr", "cb": "pcb"}]},
             {"name": "SubTrack", "base": "Track", "methods": [{"name": "x", "ret": ret("int"), "cb": g("subx")}]},
+            # the experiment's own registered collection class, with a class-level callback: it fires for every method
+            # called on such a collection - after the lambda of the operator has been followed
+            {"name": "TrkColl", "base": "ObjectStreamInternalMethods[T]", "collection": True, "cb": g("collcls"), "methods": []},
             # inherited / overridden / own methods under decorated base, decorated subclass, both, neither
             {"name": "Particle", "cb": g("partcls"),
              "methods": [{"name": "pt", "ret": ret("float"), "cb": g("partpt")}, {"name": "eta", "ret": ret("float")},
@@ -74,12 +78,14 @@ def gen_desc(r):
              "methods": [{"name": "pt", "ret": ret("float"), "cb": g("jetpt")},
                          {"name": "trks", "ret": "Iterable[Track]", "cb": g("jettrks")},
                          {"name": "subs", "ret": "Iterable[SubTrack]"},
-                         {"name": "leps", "ret": "Iterable[Lepton]"}]},
+                         {"name": "leps", "ret": "Iterable[Lepton]"},
+                         {"name": "ctrks", "ret": "TrkColl[Track]"}]},
             {"name": "JetList", "base": "Iterable[Jet]", "methods": []},
             {"name": "GoodJets", "base": "JetList", "methods": []},      # plain subclass: iterable through the inherited base
             {"name": "Event", "cb": g("evcls"),
              "methods": [{"name": "Jets", "ret": "Iterable[Jet]", "cb": g("evjets")}, {"name": "met", "ret": ret("float")},
-                         {"name": "Muons", "ret": "Iterable[Muon]"}, {"name": "GoodJets", "ret": "GoodJets"}, {"name": "LeadLep", "ret": "Lepton"},
+                         {"name": "Muons", "ret": "Iterable[Muon]"}, {"name": "GoodJets", "ret": "GoodJets"},
+                         {"name": "CTrks", "ret": "TrkColl[Track]"}, {"name": "LeadLep", "ret": "Lepton"},
                          {"name": "LeadMu", "ret": "Muon"}, {"name": "Parts", "ret": "Iterable[Particle]"}]},
         ],
         "functions": [{"name": "myf", "params": [("a", None)], "ret": "float", "proc": g("fproc")},
@@ -97,8 +103,8 @@ METHODS = {  # class -> method -> (method cb placement, result kind)
     "Track": {"pt": ("trackpt", "float"), "eta": (None, "float")},
     "SubTrack": {"pt": ("trackpt", "float"), "eta": (None, "float"), "x": ("subx", "float")},
     "Jet": {"pt": ("jetpt", "float"), "trks": ("jettrks", "iter:Track"), "subs": (None, "iter:SubTrack"),
-            "leps": (None, "iter:Lepton")},
-    "Event": {"Jets": ("evjets", "iter:Jet"), "met": (None, "float"), "Muons": (None, "iter:Muon"), "GoodJets": (None, "iter:Jet"),
+            "leps": (None, "iter:Lepton"), "ctrks": (None, "coll:Track")},
+    "Event": {"Jets": ("evjets", "iter:Jet"), "met": (None, "float"), "Muons": (None, "iter:Muon"), "GoodJets": (None, "iter:Jet"), "CTrks": (None, "coll:Track"),
               "Parts": (None, "iter:Particle"), "LeadLep": (None, "obj:Lepton"), "LeadMu": (None, "obj:Muon")},
     "Particle": {"pt": ("partpt", "float"), "eta": (None, "float"), "phi": (None, "float")},
     "Lepton": {"pt": ("partpt", "float"), "eta": ("lepeta", "float"), "phi": (None, "float"), "iso": ("lepiso", "float")},
@@ -116,6 +122,7 @@ class Q:
         self.cbs = desc["callbacks"]
         self.sites = 0
         self.depth = 0
+        self.kind = "iter"
 
     def rewrite(self, cb, site):
         return self.m._rewrite(self.cbs[cb].get("rw"), site)
@@ -192,6 +199,7 @@ class Q:
             out = self.fire("pcb", site, ev, kind="param", param=ast.literal_eval(p))
             return w, out
         coll, collx, sub = self.collection(cls, v, d, ev)
+        kind = self.kind
         if k == "nestcount":
             body_ev = []
             nv = r.choice(["t", v, "q"])
@@ -199,6 +207,7 @@ class Q:
             cw = tc.op_call(r, coll, "Where", lam(nv, gen.cmp(ast.Gt, b, C(1))), 0.5)
             cx = call(A(collx, "Where"), [lam(nv, gen.cmp(ast.Gt, bx, C(1)))])
             ev += body_ev
+            cx = self.cfire(kind, cx, ev)
             return call(A(cw, "Count"), []), call(A(cx, "Count"), [])
         if k in ("dict", "tuple"):
             if k == "dict":
@@ -206,8 +215,8 @@ class Q:
             else:
                 coll, collx = gen.sub(gen.tup(coll, C(0)), C(0)), gen.sub(gen.tup(collx, C(0)), C(0))
         # First() / [0] then a scalar method of the element (the call site is at this lambda depth)
-        if r.random() < 0.5:
-            f, fx = call(A(coll, "First"), []), call(A(collx, "First"), [])
+        if r.random() < 0.5 or kind == "coll":
+            f, fx = call(A(coll, "First"), []), self.cfire(kind, call(A(collx, "First"), []), ev)
         else:
             f, fx = gen.sub(coll, C(0)), gen.sub(collx, C(0))
         name = r.choice(sorted(METHODS[sub])) if sub in LEPTONS else "pt"
@@ -218,10 +227,17 @@ class Q:
         """an Iterable-valued expression over v : cls -> (written, expected, element class)"""
         r = self.r
         if cls == "Event":
-            w, x, res = self.mcall("Event", N(v), N(v), r.choice(["Jets", "Jets", "Muons", "Parts", "GoodJets"]), ev)
+            w, x, res = self.mcall("Event", N(v), N(v), r.choice(["Jets", "Jets", "Muons", "Parts", "GoodJets", "CTrks", "CTrks"]), ev)
         else:
-            w, x, res = self.mcall("Jet", N(v), N(v), r.choice(["trks", "subs", "leps"]), ev)
+            w, x, res = self.mcall("Jet", N(v), N(v), r.choice(["trks", "subs", "leps", "ctrks"]), ev)
+        self.kind = res.split(":")[0]
         return w, x, res.split(":")[1]
+
+    def cfire(self, kind, site, ev):
+        """a method called on the registered collection class: its class-level callback fires on that call site"""
+        if kind == "coll" and "collcls" in self.cbs:
+            return self.fire("collcls", site, ev)
+        return site
 
     def top(self, cls, v, d, ev):
         """body of an operator lambda over v : cls -> (written, expected)"""
@@ -229,6 +245,7 @@ class Q:
         if cls in ("Track", "SubTrack") + LEPTONS or d >= 3 or r.random() < 0.3:
             return self.scalar(cls, v, d, ev)
         coll, collx, sub = self.collection(cls, v, d, ev)
+        kind = self.kind
         nv = r.choice(["j", "t", v])
         op = r.choice(["Select", "Select", "Where+Select", "SelectMany"])
         if op == "SelectMany" and sub == "Jet":
@@ -240,9 +257,10 @@ class Q:
         if op == "Where+Select":
             c, cx = self.scalar(sub, nv, d + 1, ev)
             coll = tc.op_call(r, coll, "Where", lam(nv, gen.cmp(ast.Lt, c, C(5))), 0.5)
-            collx = call(A(collx, "Where"), [lam(nv, gen.cmp(ast.Lt, cx, C(5)))])
+            collx = self.cfire(kind, call(A(collx, "Where"), [lam(nv, gen.cmp(ast.Lt, cx, C(5)))]), ev)
+            kind = "iter"                                  # Where gives back a plain iterable
         b, bx = self.top(sub, nv, d + 1, ev)
-        return tc.op_call(r, coll, "Select", lam(nv, b)), call(A(collx, "Select"), [lam(nv, bx)])
+        return tc.op_call(r, coll, "Select", lam(nv, b)), self.cfire(kind, call(A(collx, "Select"), [lam(nv, bx)]), ev)
 
 
 def run_cases(ctx, model, desc, cases):
